@@ -88,7 +88,7 @@ func cmdFunc(args []string) {
 			if fct.Inline && len(fct.Ensures) == 0 {
 				continue // verified as part of its callers
 			}
-			fi := V.funcsByKey[*pkg+"."+k]
+			fi := V.funcInfoForContract(*pkg, k, fct)
 			if fi == nil {
 				fmt.Printf("%s: no such function\n", k)
 				bad++
